@@ -148,7 +148,7 @@ func replacementOf(p *core.Prog, c *ssa.Call) (subject ssa.Value, pairs []replPa
 			return nil, nil, "strings.ReplaceAll with non-constant arguments"
 		}
 		return a[0], []replPair{{o, n}}, ""
-	case "(*strings.Replacer).Replace":
+	case "(*strings.Replacer).Replace", "(*strings.Replacer).WriteString":
 		// the replacer: a package-level variable initialised with strings.NewReplacer(consts…)
 		var nr *ssa.Call
 		recv := sx.Unspill(a[0])
@@ -187,7 +187,7 @@ func replacementOf(p *core.Prog, c *ssa.Call) (subject ssa.Value, pairs []replPa
 			}
 			pairs = append(pairs, replPair{o, n})
 		}
-		return a[1], pairs, ""
+		return a[len(a)-1], pairs, ""
 	}
 	return nil, nil, "not a replace-all call"
 }
@@ -240,6 +240,102 @@ type sevalCtx struct {
 	input  *ssa.Parameter
 	esc    *ssa.Function    // ShellEscape (source function); nil while evaluating ShellEscape itself
 	choice map[*ssa.Phi]int // phi → chosen incoming edge
+	path   []*ssa.BasicBlock // the path being evaluated (loop-free functions), nil otherwise
+}
+
+// intOf: an integer constant, directly or through the phis decided by the path.
+func (c *sevalCtx) intOf(v ssa.Value, depth int) (int64, bool) {
+	if k, ok := sx.ConstInt(v); ok {
+		return k, true
+	}
+	if depth > 6 {
+		return 0, false
+	}
+	if ph, ok := sx.Unspill(v).(*ssa.Phi); ok {
+		if k, ok := c.choice[ph]; ok {
+			return c.intOf(ph.Edges[k], depth+1)
+		}
+	}
+	return 0, false
+}
+
+// builderKey identifies a strings.Builder by where it lives: a local, or a field of a local struct.
+func builderKey(v ssa.Value) string {
+	switch x := v.(type) {
+	case *ssa.Alloc:
+		return fmt.Sprintf("%p", x)
+	case *ssa.FieldAddr:
+		if a, ok := x.X.(*ssa.Alloc); ok {
+			return fmt.Sprintf("%p.%d", a, x.Field)
+		}
+	}
+	return ""
+}
+
+// builderOnPath: the contents of the builder at its String() call, as the concatenation of what the path wrote to it.
+func (c *sevalCtx) builderOnPath(str *ssa.Call, depth int) *sstr {
+	unk := func(f string, a ...any) *sstr { return &sstr{kind: "unknown", s: fmt.Sprintf(f, a...)} }
+	key := builderKey(sx.Args(str)[0])
+	if key == "" {
+		return unk("the builder is neither a local variable nor a field of a local struct")
+	}
+	out := &sstr{kind: "concat"}
+	for _, b := range c.path {
+		for _, in := range b.Instrs {
+			if in == ssa.Instruction(str) {
+				return out
+			}
+			uses := false
+			var buf [8]*ssa.Value
+			for _, op := range in.Operands(buf[:0]) {
+				if *op == nil {
+					continue
+				}
+				if builderKey(*op) == key {
+					uses = true
+				}
+				if mi, ok := (*op).(*ssa.MakeInterface); ok && builderKey(mi.X) == key {
+					uses = true // the builder as an io.Writer
+				}
+			}
+			if !uses {
+				continue
+			}
+			switch x := in.(type) {
+			case *ssa.FieldAddr, *ssa.DebugRef:
+				continue
+			case *ssa.MakeInterface:
+				// handed to a Replacer below (checked at the use)
+				continue
+			case *ssa.Call:
+				a := sx.Args(x)
+				switch sx.CalleeName(x) {
+				case "(*strings.Builder).Grow", "(*strings.Builder).Len", "(*strings.Builder).Cap", "(*strings.Builder).String":
+					continue
+				case "(*strings.Builder).WriteString":
+					out.parts = append(out.parts, c.eval(a[1], depth+1))
+					continue
+				case "(*strings.Replacer).WriteString":
+					// replacer.WriteString(&b, s): every occurrence replaced, written to the builder
+					if subject, pairs, why := replacementOf(c.p, x); why == "" {
+						out.parts = append(out.parts, &sstr{kind: "repl", sub: c.eval(subject, depth+1), pairs: pairs})
+						continue
+					} else {
+						return unk("%s", why)
+					}
+				case "(*strings.Builder).WriteByte", "(*strings.Builder).WriteRune":
+					if k, ok := c.intOf(a[1], 0); ok && k >= 0 && k < 0x80 {
+						out.parts = append(out.parts, &sstr{kind: "const", s: string(rune(k))})
+						continue
+					}
+					return unk("a non-constant byte is written to the builder")
+				}
+				return unk("builder method %s is not modelled", short(sx.CalleeName(x)))
+			}
+			return unk("the builder is used other than through its methods")
+		}
+	}
+	return unk("the path does not reach the builder's String call")
 }
 
 func (c *sevalCtx) eval(v ssa.Value, depth int) *sstr {
@@ -272,10 +368,10 @@ func (c *sevalCtx) eval(v ssa.Value, depth int) *sstr {
 			lo, hi := int64(0), int64(-1)
 			okLo, okHi := true, true
 			if x.Low != nil {
-				lo, okLo = sx.ConstInt(x.Low)
+				lo, okLo = c.intOf(x.Low, 0)
 			}
 			if x.High != nil {
-				hi, okHi = sx.ConstInt(x.High)
+				hi, okHi = c.intOf(x.High, 0)
 			}
 			switch {
 			case okLo && x.High == nil:
@@ -284,6 +380,9 @@ func (c *sevalCtx) eval(v ssa.Value, depth int) *sstr {
 				}
 				return &sstr{kind: "suffix", k: lo}
 			case okLo && lo == 0 && okHi:
+				if hi == 0 {
+					return &sstr{kind: "const", s: ""}
+				}
 				return &sstr{kind: "prefix", k: hi}
 			}
 		}
@@ -298,6 +397,9 @@ func (c *sevalCtx) eval(v ssa.Value, depth int) *sstr {
 			return &sstr{kind: "esc", sub: c.eval(x.Call.Args[0], depth+1)}
 		}
 		name := sx.CalleeName(x)
+		if name == "(*strings.Builder).String" && c.path != nil {
+			return c.builderOnPath(x, depth)
+		}
 		if name == "strings.Join" {
 			// Join(Split(x, old), new) replaces every occurrence of a non-empty old by new
 			if sp, ok := sx.Unspill(x.Call.Args[0]).(*ssa.Call); ok && sx.CalleeName(sp) == "strings.Split" {
@@ -386,6 +488,89 @@ func phiCases(ret *ssa.Return) []map[*ssa.Phi]int {
 			m[ph] = k
 		}
 		out = append(out, m)
+	}
+	return out
+}
+
+// resCase is one way a function's result comes about: in a loop-free function one path from the entry to a return
+// (every phi decided by the path, the facts of exactly the edges taken); otherwise one incoming edge of the return's
+// merged value (phiCases).
+type resCase struct {
+	ret    *ssa.Return
+	choice map[*ssa.Phi]int
+	path   []*ssa.BasicBlock
+	edges  map[sx.Edge]bool
+	label  string
+}
+
+func resultCases(fn *ssa.Function) []resCase {
+	var out []resCase
+	if len(sx.LoopHeaders(fn)) == 0 {
+		var paths [][]*ssa.BasicBlock
+		var walk func(b *ssa.BasicBlock, cur []*ssa.BasicBlock)
+		tooMany := false
+		walk = func(b *ssa.BasicBlock, cur []*ssa.BasicBlock) {
+			if tooMany || b == fn.Recover {
+				return
+			}
+			cur = append(cur, b)
+			if len(b.Succs) == 0 {
+				if _, isRet := b.Instrs[len(b.Instrs)-1].(*ssa.Return); isRet {
+					paths = append(paths, append([]*ssa.BasicBlock(nil), cur...))
+					if len(paths) > 48 {
+						tooMany = true
+					}
+				}
+				return
+			}
+			for _, s := range b.Succs {
+				walk(s, cur)
+			}
+		}
+		walk(fn.Blocks[0], nil)
+		if !tooMany && len(paths) > 0 {
+			perRet := map[*ssa.Return]int{}
+			for _, pth := range paths {
+				rc := resCase{ret: pth[len(pth)-1].Instrs[len(pth[len(pth)-1].Instrs)-1].(*ssa.Return), choice: map[*ssa.Phi]int{}, path: pth, edges: map[sx.Edge]bool{}}
+				for i := 1; i < len(pth); i++ {
+					prev, b := pth[i-1], pth[i]
+					for si, sb := range prev.Succs {
+						if sb == b {
+							rc.edges[sx.Edge{From: prev, Idx: si}] = true
+						}
+					}
+					for k, pb := range b.Preds {
+						if pb != prev {
+							continue
+						}
+						for _, in := range b.Instrs {
+							ph, ok := in.(*ssa.Phi)
+							if !ok {
+								break
+							}
+							rc.choice[ph] = k
+						}
+					}
+				}
+				n := perRet[rc.ret]
+				perRet[rc.ret]++
+				if n > 0 {
+					rc.label = fmt.Sprintf(" path %d", n)
+				}
+				out = append(out, rc)
+			}
+			return out
+		}
+		out = nil
+	}
+	for _, ret := range sx.Returns(fn) {
+		for ci, choice := range phiCases(ret) {
+			rc := resCase{ret: ret, choice: choice}
+			if ci > 0 {
+				rc.label = fmt.Sprintf(" case %d", ci)
+			}
+			out = append(out, rc)
+		}
 	}
 	return out
 }
@@ -857,14 +1042,20 @@ func runC16(p *core.Prog, r *core.Report) {
 	var refPairs []replPair
 	refOK := false
 	nRet := 0
-	for i, ret := range sx.Returns(se) {
-		for ci, choice := range phiCases(ret) {
-			c := fmt.Sprintf("ShellEscape return #%d", i)
-			if ci > 0 {
-				c += fmt.Sprintf(" case %d", ci)
+	retIdx := func(fn *ssa.Function, ret *ssa.Return) int {
+		for i, r2 := range sx.Returns(fn) {
+			if r2 == ret {
+				return i
 			}
+		}
+		return -1
+	}
+	for _, rc := range resultCases(se) {
+		{
+			ret, choice := rc.ret, rc.choice
+			c := fmt.Sprintf("ShellEscape return #%d", retIdx(se, ret)) + rc.label
 			nRet++
-			ctx := &sevalCtx{p: p, input: se.Params[0], choice: choice}
+			ctx := &sevalCtx{p: p, input: se.Params[0], choice: choice, path: rc.path}
 			expr := ctx.eval(ret.Results[0], 0)
 			open, mid, closeS, why := quotedFormOf(expr.flat())
 			if why == "" && mid.sub.kind != "input" {
@@ -907,12 +1098,10 @@ func runC16(p *core.Prog, r *core.Report) {
 		}
 		return true
 	}
-	for i, ret := range sx.Returns(st) {
-		for ci, choice := range phiCases(ret) {
-			c := fmt.Sprintf("ShellEscapeExceptTilde return #%d", i)
-			if ci > 0 {
-				c += fmt.Sprintf(" case %d", ci)
-			}
+	for _, rc := range resultCases(st) {
+		{
+			ret, choice := rc.ret, rc.choice
+			c := fmt.Sprintf("ShellEscapeExceptTilde return #%d", retIdx(st, ret)) + rc.label
 			// the point up to which path facts are collected: the return, or the end of the chosen incoming path
 			var at ssa.Instruction = ret
 			var via *sx.Edge
@@ -930,6 +1119,15 @@ func runC16(p *core.Prog, r *core.Report) {
 				if len(e) == 0 {
 					return false
 				}
+				if rc.path != nil {
+					// exactly the edges this path takes
+					for k := range e {
+						if rc.edges[k] {
+							return true
+						}
+					}
+					return false
+				}
 				if via != nil && e[*via] {
 					return true
 				}
@@ -944,7 +1142,7 @@ func runC16(p *core.Prog, r *core.Report) {
 					}
 				}
 			}
-			ctx := &sevalCtx{p: p, input: input, esc: seSrc, choice: choice}
+			ctx := &sevalCtx{p: p, input: input, esc: seSrc, choice: choice, path: rc.path}
 			parts := ctx.eval(ret.Results[0], 0).flat()
 			// normal form: optional unquoted prefix, then the escaped subject
 			var prefix *sstr
@@ -967,6 +1165,16 @@ func runC16(p *core.Prog, r *core.Report) {
 					if pf := strings.TrimSuffix(parts[0].s, refOpen); pf != "" {
 						prefix = &sstr{kind: "const", s: pf}
 					}
+				}
+			case len(parts) == 4 && parts[0].kind == "prefix" && parts[1].kind == "const" && parts[2].kind == "repl" && parts[3].kind == "const":
+				// input[:k] left outside, then the quoting written out
+				switch {
+				case !refOK:
+					why = "the quoting is written out but ShellEscape's own form was not verified"
+				case parts[1].s != refOpen || parts[3].s != refClose || !samePairs(parts[2].pairs, refPairs):
+					why = "the quoting written out here (" + parts[1].String() + " … " + parts[3].String() + ") differs from ShellEscape's"
+				default:
+					prefix, subject = parts[0], parts[2].sub
 				}
 			default:
 				var ps []string
